@@ -328,6 +328,10 @@ def check_pdf(chk, rep, repo):
                     node_i = ("idx", ("attr", G, "nodes"), i)
                     node_j = ("idx", ("attr", G, "nodes"), nb)
                     mentions = weight_names_pair(W, node_i, node_j)
+                    if not mentions:
+                        # adjacency lists that hold Python ints are read without the int() cast
+                        node_j = ("idx", ("attr", G, "nodes"), nb[2][0])
+                        mentions = weight_names_pair(W, node_i, node_j)
                     okacc = alg.equal(alg.conv(arg), want) and mentions and not a.guards
                     if not mentions:
                         detail = "the arc weight in the pdf is not w(i, adjacency_r(i))"
